@@ -130,16 +130,19 @@ def make_fragment(track: dict, track_id: int, tag: int, seg_index: int, seq: int
         moof = isobox.box(b"moof", mfhd + isobox.box(b"traf", traf))
         return moof, (None if senc_first is None else 8 + len(mfhd) + 8 + senc_first)
 
+    # a stored mdat may use the 64-bit size form (size field 1 + largesize) although the size would fit 32 bits:
+    # unusual, legal, and what some packagers write for every mdat
+    mdat_hdr = 16 if track.get("mdat64") else 8
     moof, senc_rel = build(0, 0, 0)
     sidx = b""
     if track.get("sidx"):
-        ref_size = len(moof) + 8 + len(payload)
+        ref_size = len(moof) + mdat_hdr + len(payload)
         sidx = isobox.fullbox(b"sidx", 0, 0, struct.pack(">IIIIHH", track_id, track["timescale"],
                                                          decode_time & 0xFFFFFFFF, 0, 0, 1) +
                               struct.pack(">III", ref_size, duration, 0x90000000))
     moof_pos = file_pos + len(pre) + len(sidx)
-    moof, senc_rel = build(moof_pos, len(moof) + 8, senc_rel or 0)
-    mdat = isobox.box(b"mdat", payload)
+    moof, senc_rel = build(moof_pos, len(moof) + mdat_hdr, senc_rel or 0)
+    mdat = (struct.pack(">I4sQ", 1, b"mdat", 16 + len(payload)) + payload) if track.get("mdat64") else isobox.box(b"mdat", payload)
     return pre + sidx + moof + mdat
 
 
@@ -191,7 +194,7 @@ def stream_specs(max_segments: int = 12, allow_enc: bool = True):
             "samples": st.integers(1, 4),
             "first_dt_ms": st.sampled_from([0, 0, 0, 1000, 123457]),
             "tfdt": st.sampled_from([True, True, True, False]),
-            "styp": st.booleans(), "sidx": st.booleans(),
+            "styp": st.booleans(), "sidx": st.booleans(), "mdat64": st.sampled_from([False, False, False, True]),
             "base": st.sampled_from(["moof", "moof", "explicit"]),
             "iv": st.sampled_from([8, 16]), "subsamples": st.booleans(),
             "sample_size": st.integers(8, 300), "per_sample": st.booleans(),
